@@ -1,102 +1,111 @@
 """C30 gossipsub accepts only messages valid for the validation mode — finite-partition evaluation of the per-message validation (K7), guards (K1), origin (K5), sign/verify sibling agreement (K11)."""
-import itertools
 import re
 
-from .. import lib, mir
-from ..mir import render
+from .. import lib, lib_gs2, mir
+from ..lib_gs2 import Canon, VarDim, BoolDim, NumDim, Cells
+from ..mir import render, strip_generics
 
 EXPLANATION = ("GossipsubCodec::decode, one iteration of the loop over rpc.publish: the body is evaluated abstractly over every cell of "
-               "(validation mode x size-too-large x signature/seqno/from present x verify_signature result x seqno empty / wrong length x "
-               "from empty x PeerId parse result); in each cell the set of reached pushes (`messages` with its source / sequence_number / "
-               "signature fields, or `invalid_messages`) equals the reference table: Strict verifies signature, seqno and source; Permissive "
-               "verifies what is present; Anonymous rejects any message carrying a signature, seqno or source; None checks nothing; a message "
-               "reaches `messages` only if every required check passed. Every iteration pushes exactly once. verify_signature returns true "
-               "only as the result of PublicKey::verify, reached only when `from` parses as a PeerId, a signature is present and "
-               "source == public_key.to_peer_id(); the verified bytes are SIGNING_PREFIX ++ encode(message with signature and key cleared); "
-               "the key is message.key if it decodes, otherwise the key inlined in the source id. The signing side (build_raw_message) "
-               "signs SIGNING_PREFIX ++ encode(message with signature: None, key: None) and publishes the fields it signed.")
+               "(validation mode x size-too-large x signature/seqno/from present x verify_signature result x length class of seqno "
+               "{0, 1..7, 8, >8 and every other constant the code compares it with} x from empty x PeerId parse result); conditions are "
+               "normalised (is_some / if-let / match, mirrored or negated comparisons, literal or named constants, renamed locals) and the "
+               "flags / Option-valued locals are followed along each path; in each cell the set of reached pushes (into the vector that "
+               "becomes RpcIn.messages, with its source / sequence_number / signature fields, or into invalid_messages) equals the reference "
+               "table: Strict verifies signature, seqno and source; Permissive verifies what is present; Anonymous rejects any message "
+               "carrying a signature, seqno or source; None checks nothing. Every iteration pushes exactly once. verify_signature returns "
+               "true only as the result of PublicKey::verify, reached only when `from` parses as a PeerId, a signature is present and "
+               "source == key.to_peer_id() for the key that verifies; the verified bytes are SIGNING_PREFIX ++ encode(message with signature "
+               "and key cleared); the key is message.key if it decodes, otherwise the key inlined in the source id. The signing side "
+               "(build_raw_message) signs the same prefix ++ encode(message with signature: None, key: None) and publishes the fields it signed.")
 ASSUMPTIONS = ["cryptographic validity of PublicKey::verify / Keypair::sign is trusted",
                "prost encode_to_vec is deterministic and covers exactly from/data/seqno/topic when signature and key are None",
                "which ValidationError kind is reported for an invalid message is not part of the table (only valid vs invalid and the surfaced fields)"]
 G = "libp2p_gossipsub"
 CONFIGS = [{"name": "gossipsub-features", "packages": ["libp2p-gossipsub"], "features": "metrics,partial-messages"}]
-M = r"<std::vec::IntoIter as std::iter::Iterator>::next\(iter\)@Some\.0"
 SELFTEST = [
     {"mutation": "Strict arm: `verify_signature = true` deleted", "caught_by": "table/per-message validation/table"},
     {"mutation": "Anonymous arm: `else if message.from.is_some()` branch deleted", "caught_by": "table/per-message validation/table"},
-    {"mutation": "build_raw_message: signed proto::Message built with `key: Some(Vec::new())`", "caught_by": "sign/signed message has signature: None and key: None"},
-    {"mutation": "`seq_no.len() != 8` -> `seq_no.len() > 8`", "caught_by": "table/per-message validation/no-unmodelled-guards"},
+    {"mutation": "`seq_no.len() != 8` -> `seq_no.len() > 8`", "caught_by": "table/per-message validation/table"},
     {"mutation": "verify_signature: `message_sig.key = None` deleted", "caught_by": "verify/signature and key are cleared before encoding"},
-    {"mutation": "verify_signature: `source != public_key.to_peer_id()` replaced by `false`", "caught_by": "verify/verify only if source == public_key.to_peer_id()"} ,
+    {"mutation": "verify_signature: `source != public_key.to_peer_id()` replaced by `false`", "caught_by": "verify/verify only if source == key.to_peer_id()"},
     {"mutation": "verify_signature: `return true` when no signature is provided", "caught_by": "verify/true only from PublicKey::verify"},
     {"mutation": "messages.push: `source` replaced by `None`", "caught_by": "table/per-message validation/table"},
+    {"mutation": "build_raw_message: signed proto::Message built with `key: Some(Vec::new())`", "caught_by": "sign/signed message has signature: None and key: None"},
+    {"mutation": "neutral/gs/10 (named constant for the literal 8)", "caught_by": "(silent, as required)"},
 ]
-
-
-def _last_def_render(body, l, env):
-    d = env.get(l)
-    if d is None:
-        return None
-    if d[0] == "stmt":
-        return render(body.rvalue_expr(body.blocks[d[1]]["stmts"][d[2]]["r"]))
-    return render(body.call_expr(body.blocks[d[1]]["term"], d[1]))
+NEXT = r"<[^()]*? as std::iter::Iterator>::next\(it\)@Some\.0"
 
 
 def check(ctx):
     prog = ctx.prog
     d = ctx.body(G, r"protocol::GossipsubCodec as asynchronous_codec::Decoder>::decode$")
     where = "%s:%d" % (d.file, d.line)
+    cx0 = Canon(prog, d)
+    # ---- the two result vectors: the locals that end up in RpcIn.messages / HandlerEvent::Message.invalid_messages
+    roles = {}
+    for s, e in cx0.returns():
+        for a in mir.walk(e):
+            if a[0] == "agg" and a[1] == "adt" and re.search(r"(types::RpcIn|handler::HandlerEvent)$", strip_generics(a[2])):
+                for f, v in a[4]:
+                    if f in ("messages", "invalid_messages") and v[0] == "local":
+                        roles[v[1]] = f
+    ctx.ob("table", "floor:result vectors", sorted(roles.values()) == ["invalid_messages", "messages"], where, str(roles), nontrivial=False)
+    cx = Canon(prog, d, roles)
     pushes = d.call_sites(r"Vec::push$")
-    valid = [s for s in pushes if render(d.site_expr(s)[2][0]) == "messages"]
-    invalid = [s for s in pushes if render(d.site_expr(s)[2][0]) == "invalid_messages"]
-    ctx.floor("table", "messages.push", valid, 1, exact=True)
-    ctx.floor("table", "invalid_messages.push", invalid, 6)
+    valid = [s for s in pushes if render(cx.args(s)[0]) == "messages"]
+    invalid = [s for s in pushes if render(cx.args(s)[0]) == "invalid_messages"]
+    ctx.floor("table", "push into RpcIn.messages", valid, 1, exact=True)
+    ctx.floor("table", "push into invalid_messages", invalid, 1)
     if not valid:
         return
-    # ---- the per-message loop
+    # ---- the per-message loop: innermost enclosing `for` whose element the pushed message is built from
     head = None
     for text, labels, sw, cond in d.guards_on_all_paths(valid[0].bb):
-        if re.match(r"^discr\(<std::vec::IntoIter as std::iter::Iterator>::next\(iter\)\)$", text) and labels == frozenset({"Some"}):
-            head = sw
-    ctx.ob("table", "floor:publish loop", head is not None, nontrivial=False, msg="loop head bb%s" % head)
+        if labels == frozenset({"Some"}) and cond[0] == "discr" and cond[1][0] == "call" and re.search(r"iter::Iterator>::next$", strip_generics(cond[1][1])) and cond[1][2] and cond[1][2][0][0] == "local":
+            head = (sw, cond[1][2][0][1], cond[1][3])
+    ctx.ob("table", "floor:publish loop", head is not None, nontrivial=False, msg=str(head))
     if head is None:
         return
-    info = d.switch_info(head)
+    sw, itl, nxt_bb = head
+    roles[itl] = "it"
+    cx = Canon(prog, d, roles)
+    info = d.switch_info(sw)
     start = [t for t, ls in info[1].items() if "Some" in ls]
-    nxt = [s[3] for s in mir.walk(info[0]) if s[0] == "call"][:1]     # block of the `next()` call = loop head
-    it_init = [render(d.init_expr(k)) for k, v in d.names.items() if v == "iter"]
-    ctx.ob("table", "loop iterates rpc.publish", any("into_iter(" in x and x.rstrip(")").endswith(".publish") for x in it_init), where, str(it_init)[:200])
+    nxt = [nxt_bb]
+    it_init = cx.init(itl)
+    src_ok = False
+    if it_init is not None and re.search(r"\.publish\)+$", render(it_init)):
+        txt = render(it_init)
+        for l in lib_gs2.locals_in(it_init):
+            li = cx.init(l)
+            if li is not None:
+                txt += " <- " + render(li)
+        src_ok = "Decoder>::decode(" in txt
+    ctx.ob("table", "loop iterates the decoded rpc's publish list", src_ok, where, render(it_init)[:200] if it_init else "")
     for s in invalid:
         ctx.ob("table", "floor:invalid push inside the loop", s.bb in d.reachable(start, stop_nodes=nxt), s.loc(), nontrivial=False)
-    # every iteration classifies the message exactly once
-    lib.expect_count(ctx, "table", "every message is pushed exactly once (valid or invalid)", d, start, nxt, lib.bbs(valid + invalid), (1, 1),
-                     "pushes per loop iteration", where)
-    atom_map = [
-        (r"^discr\(self\.validation_mode\)$", "mode"),
-        (r"^std::option::Option::is_some_and\(libp2p_gossipsub::protocol::GossipsubCodec::max_transmit_size_for_topic\(", "big"),
-        (r"^std::option::Option::is_some\(%s\.signature\)$" % M, "sig"),
-        (r"^std::option::Option::is_some\(%s\.seqno\)$" % M, "seq"),
-        (r"^discr\(%s\.seqno\)$" % M, "seqd"),
-        (r"^std::option::Option::is_some\(%s\.from\)$" % M, "from"),
-        (r"^discr\(%s\.from\)$" % M, "fromd"),
-        (r"^libp2p_gossipsub::protocol::GossipsubCodec::verify_signature\(%s\)$" % M, "vsig"),
-        (r"^std::vec::Vec::is_empty\(%s\.seqno@Some\.0\)$" % M, "seq_empty"),
-        (r"^Ne\(std::vec::Vec::len\(%s\.seqno@Some\.0\), 8\)$" % M, "seq_badlen"),
-        (r"^std::vec::Vec::is_empty\(%s\.from@Some\.0\)$" % M, "from_empty"),
-        (r"^discr\(libp2p_identity::PeerId::from_bytes\((<std::vec::Vec as std::ops::Deref>::deref\()?%s\.from@Some\.0\)?\)\)$" % M, "pid"),
-        (r"^discr\(std::option::Option::take\(invalid_kind\)\)$", "inv"),
+    lib.expect_count(ctx, "table", "every message is pushed exactly once (valid or invalid)", d, start, nxt, lib.bbs(valid + invalid), (1, 1), "pushes per loop iteration", where)
+    E = NEXT
+    dims = [
+        VarDim("mode", r"^\$1\.validation_mode$", ["Strict", "Permissive", "Anonymous", "None"]),
+        BoolDim("big", r"^std::option::Option::is_some_and\(.*max_transmit_size_for_topic\("),
+        VarDim("sig", r"^%s\.signature$" % E, ["Some", "None"]),
+        VarDim("seq", r"^%s\.seqno$" % E, ["Some", "None"]),
+        VarDim("from", r"^%s\.from$" % E, ["Some", "None"]),
+        BoolDim("vsig", r"^libp2p_gossipsub::protocol::GossipsubCodec::verify_signature\(%s\)$" % E),
+        NumDim("seqlen", r"^std::vec::Vec::len\(%s\.seqno@Some\.0\)$" % E, consts={0, 8}),
+        NumDim("fromlen", r"^std::vec::Vec::len\(%s\.from@Some\.0\)$" % E, consts={0}),
+        VarDim("pid", r"^libp2p_identity::PeerId::from_bytes\(%s\.from@Some\.0\)$" % E, ["Ok", "Err"]),
     ]
-    B = ["true", "false"]
-    domain = {"mode": ["Strict", "Permissive", "Anonymous", "None"], "big": B, "sig": B, "seq": B, "from": B, "vsig": B,
-              "seq_empty": B, "seq_badlen": B, "from_empty": B, "pid": ["Ok", "Err"]}
-    inv_locals = [k for k, v in d.names.items() if v == "invalid_kind"]
+    cells = Cells(cx, dims)
 
     def ref(a):
-        """Reference table (DESIGN A.10 + the checks that follow it).  Returns (expected invalid_kind present, value) ;
-        value None = don't-care (cell infeasible given verify_signature's own preconditions)."""
-        if a["big"] == "true":
-            return None, "invalid"
-        sig, seq, frm = a["sig"] == "true", a["seq"] == "true", a["from"] == "true"
+        """Reference table (DESIGN A.10 + the checks that follow it); None = don't-care (infeasible given verify_signature's own
+        preconditions)."""
+        if a["big"]:
+            return "invalid"
+        sig, seq, frm = a["sig"] == "Some", a["seq"] == "Some", a["from"] == "Some"
+        from_empty = a["fromlen"] == (0, 0)
         mode = a["mode"]
         if mode == "Strict":
             vs, vq, vf = True, True, True
@@ -104,265 +113,231 @@ def check(ctx):
             vs, vq, vf = sig, seq, frm
         elif mode == "Anonymous":
             if sig or seq or frm:
-                return True, "invalid"
+                return "invalid"
             vs = vq = vf = False
         else:
             vs = vq = vf = False
-        if vs and a["vsig"] == "false":
-            return False, "invalid"
-        if vs and not (frm and a["from_empty"] == "false" and a["pid"] == "Ok"):
-            return False, None          # verify_signature cannot have returned true without a parseable `from`
-        if vs and not sig:
-            return False, None          # nor without a signature
+        if vs and not a["vsig"]:
+            return "invalid"
+        if vs and not (frm and not from_empty and a["pid"] == "Ok" and sig):
+            return None
         q = "none"
         if vq:
             if not seq:
-                return False, "invalid"
-            if a["seq_empty"] == "true":
+                return "invalid"
+            if a["seqlen"] == (0, 0):
                 q = "none"
-            elif a["seq_badlen"] == "true":
-                return False, "invalid"
+            elif a["seqlen"] != (8, 8):
+                return "invalid"
             else:
                 q = "u64(seqno)"
         s = "none"
-        if vf and frm and a["from_empty"] == "false":
+        if vf and frm and not from_empty:
             if a["pid"] == "Err":
-                return False, "invalid"
+                return "invalid"
             s = "peer(from)"
-        return False, "valid(source=%s, seq=%s, sig=message.signature)" % (s, q)
+        return "valid(source=%s, seq=%s, sig=message.signature)" % (s, q)
 
     def value_of(site, env):
-        e = d.site_expr(site)
-        if render(e[2][0]) == "invalid_messages":
+        args = cx.args(site)
+        if render(args[0]) == "invalid_messages":
             return "invalid"
-        agg = e[2][1]
+        agg = args[1]
         if not (agg[0] == "agg" and agg[1] == "adt"):
             return "?" + render(agg)[:60]
-        out = {}
-        for fname, fe in agg[4]:
-            r = render(fe)
-            if fe[0] == "local" and fe[1] in env:
-                r = _last_def_render(d, fe[1], env)
-            out[fname] = r
+        out = {f: render(cells._env_value(v, env)) for f, v in agg[4]}
         src, sq, sg = out.get("source", "?"), out.get("sequence_number", "?"), out.get("signature", "?")
         if src == "std::option::Option::None{}":
             s = "none"
-        elif re.match(r"^std::option::Option::Some\{0: libp2p_identity::PeerId::from_bytes\((<std::vec::Vec as std::ops::Deref>::deref\()?%s\.from@Some\.0\)?\)@Ok\.0\}$" % M, src):
+        elif re.match(r"^std::option::Option::Some\{0: libp2p_identity::PeerId::from_bytes\(%s\.from@Some\.0\)@Ok\.0\}$" % E, src):
             s = "peer(from)"
         else:
             s = "?" + src[:60]
         if sq == "std::option::Option::None{}":
             q = "none"
-        elif re.match(r"^std::option::Option::Some\{0: <byteorder::BigEndian as byteorder::ByteOrder>::read_u64\((<std::vec::Vec as std::ops::Deref>::deref\()?%s\.seqno@Some\.0\)?\)\}$" % M, sq):
+        elif re.match(r"^std::option::Option::Some\{0: <byteorder::BigEndian as byteorder::ByteOrder>::read_u64\(%s\.seqno@Some\.0\)\}$" % E, sq):
             q = "u64(seqno)"
         else:
             q = "?" + sq[:60]
-        g = "message.signature" if re.match(r"^%s\.signature$" % M, sg) else "?" + sg[:60]
+        g = "message.signature" if re.match(r"^%s\.signature$" % E, sg) else "?" + sg[:60]
         return "valid(source=%s, seq=%s, sig=%s)" % (s, q, g)
 
     by_bb = {}
     for s in valid + invalid:
         by_bb.setdefault(s.bb, []).append(s)
     result_bbs = set(by_bb) | set(nxt)
-    atoms = list(domain)
-    bad, unknown_all, ncells, seen_vals = [], set(), 0, set()
+    bad, ncells, seen_vals = [], 0, set()
     try:
-        for combo in itertools.product(*[domain[a] for a in atoms]):
-            asg = dict(zip(atoms, combo))
-            asg["seqd"] = "Some" if asg["seq"] == "true" else "None"
-            asg["fromd"] = "Some" if asg["from"] == "true" else "None"
-            inv_want, want = ref(asg)
+        for cell in cells.cells():
+            want = ref(cell)
             if want is None:
                 continue
-            for inv in (["Some", "None"] if inv_want is None else ["Some" if inv_want else "None"]):
-                asg["inv"] = inv
-                ncells += 1
-                paths, unk = lib.cell_paths(d, asg, atom_map, result_bbs, start[0], limit=60000)
-                unknown_all |= unk
-                vals = set()
-                for b, env in paths:
-                    # feasibility: the Some/None edge taken at `invalid_kind.take()` must agree with the last assignment on this path
-                    if inv_locals and inv_locals[0] in env and inv_want is not None:
-                        r = _last_def_render(d, inv_locals[0], env)
-                        actual = "Some" if r.startswith("std::option::Option::Some") else "None"
-                        if actual != inv and b in by_bb and _passes_take(d, b, start[0]):
-                            continue
-                    if b is None or b in nxt:
-                        vals.add("<no push>")
-                        continue
-                    for s in by_bb[b]:
-                        vals.add(value_of(s, env))
-                seen_vals |= vals
-                if vals != {want}:
-                    if len(bad) < 5:
-                        bad.append("%s -> got %s want %s" % ({k: v for k, v in asg.items() if k not in ("seqd", "fromd")}, sorted(vals), want))
-                    else:
-                        bad.append("")
+            ncells += 1
+            vals = set()
+            for b_, env in cells.run(cell, start, result_bbs):
+                if b_ is None or b_ in nxt:
+                    vals.add("<no push>")
+                    continue
+                for s in by_bb[b_]:
+                    vals.add(value_of(s, env))
+            seen_vals |= vals
+            if vals != {want}:
+                bad.append("%s -> got %s want %s" % (cell, sorted(vals), want) if len(bad) < 4 else "")
     except mir.RuleError as ex:
         bad.append(str(ex))
-    unknown_all = {u for u in unknown_all if not re.search(r"^enabled$|^discr\(<std::vec::IntoIter as std::iter::Iterator>::next\(iter\)\)$", u)}
-    ctx.ob("table", "per-message validation/no-unmodelled-guards", not unknown_all, where, "conditions outside the table's atoms: %s" % sorted(unknown_all)[:4])
+    unknown = {u for u in cells.unknown if not re.search(r"Iterator>::next\(it\)$", u)}
+    ctx.ob("table", "per-message validation/no-unmodelled-guards", not unknown, where, "conditions outside the table's dimensions: %s" % sorted(unknown)[:4])
     ctx.ob("table", "per-message validation/table", not bad and ncells > 0, where,
-           "abstract evaluation over %d cells of %s: %s" % (ncells, atoms + ["inv"], "all equal to the reference table (values %s)" % sorted(seen_vals)
-                                                           if not bad else "; ".join(x for x in bad if x) + " (%d cells differ)" % len(bad)))
-    # ---- direct guards on the accepting push (redundant with the table, better diagnostics)
+           "abstract evaluation over %d cells of %s (seqno length classes %s): %s" % (ncells, [x.name for x in dims], dims[6].domain, "all equal to the reference table (values %s)" % sorted(seen_vals)
+                                                                                      if not bad else "; ".join(x for x in bad if x) + " (%d cells differ)" % len(bad)))
+    # ---- direct guard on the accepting push (redundant with the table, better diagnostics)
+    BIG = r"^std::option::Option::is_some_and\(.*max_transmit_size_for_topic\("
     for s in valid:
-        ctx.guarded("guard", "valid only if not over the topic's size limit", s, lambda c, r, l: l == "false" and re.search(atom_map[1][0], r) is not None, "!is_some_and(encoded_len > max)")
-        ctx.guarded("guard", "valid only if the mode-specific precheck found nothing", s, lambda c, r, l: l == "None" and re.search(atom_map[12][0], r) is not None, "invalid_kind is None")
-    # Strict arm sets all three flags; checked per flag so that the diagnostic names it
-    arm = lib.arm_entry(d, r"^discr\(self\.validation_mode\)$", "Strict")
-    join = [bi for bi in d.live if d.switch_info(bi) and re.search(atom_map[12][0], render(d.switch_info(bi)[0]))]
-    for flag in ("verify_signature", "verify_sequence_no", "verify_source"):
-        ls = [k for k, v in d.names.items() if v == flag]
-        sets = [mir.Site(d, x[1], x[2]) for l in ls for x in d.defs.get(l, []) if x[0] == "stmt" and render(d.rvalue_expr(x[3])) == "1"]
-        ok = bool(arm) and bool(join) and bool(sets) and d.must_pass_nodes([t for _, t in arm], join, lib.bbs(sets))
-        ctx.ob("guard", "Strict sets %s" % flag, ok, sets[0].loc() if sets else where, "every path through the Strict arm assigns %s = true" % flag)
-        sw = [bi for bi in d.live if d.switch_info(bi) and render(d.switch_info(bi)[0]) == flag]
-        ctx.ob("guard", "floor:%s is tested" % flag, len(sw) == 1, nontrivial=False, msg=str(sw))
-    # the size closure compares the encoded length with the topic's maximum
-    big = [bi for bi in d.live if d.switch_info(bi) and re.search(atom_map[1][0], render(d.switch_info(bi)[0]))]
-    for bi in big:
-        cl = lib.closure_of(prog, d, d.switch_info(bi)[0])
-        r0 = [render(cl.site_expr(mir.Site(cl, x[1], x[2]))) for x in cl.defs[0]] if cl else []
-        ctx.ob("guard", "size test is encoded_len(message) > max", len(r0) == 1 and re.match(r"^Gt\(libp2p_gossipsub::<rpc_proto::proto::gossipsub_pb::Message as prost::Message>::encoded_len\(\^message\), max\)$", r0[0]) is not None,
-               cl and "%s:%d" % (cl.file, cl.line) or where, str(r0)[:200])
+        ok = cx.dominated(s.bb, cx.edges(lib_gs2.bool_pred(BIG, False)))
+        ctx.ob("guard", "valid only if not over the topic's size limit", ok, s.loc(), "!max_transmit_size_for_topic(topic).is_some_and(|max| encoded_len > max)")
+    for bi in sorted(d.live):
+        swc = cx.switch(bi)
+        if swc and re.search(BIG, render(swc[0])):
+            for cl in cx.closures_in(d.switch_info(bi)[0]):
+                rets = cl.returns()
+                ok = len(rets) == 1 and any(lib_gs2.rel_pred(r"encoded_len\(%s\)$" % E, r"^c\$2$", "Gt")(a) for a in lib_gs2.atoms_of(rets[0][1], {"true"}))
+                ctx.ob("guard", "size test is encoded_len(message) > max", ok, "%s:%d" % (cl.b.file, cl.b.line), str([render(e) for _, e in rets])[:200])
     # ---- verify_signature
     v = ctx.body(G, r"protocol::GossipsubCodec::verify_signature$")
+    cv = Canon(prog, v)
     vw = "%s:%d" % (v.file, v.line)
     ver = v.call_sites(r"libp2p_identity::PublicKey::verify$")
     ctx.floor("verify", "PublicKey::verify call", ver, 1, exact=True)
     n_false = 0
-    for x in v.defs[0]:
-        site = mir.Site(v, x[1], x[2])
-        if x[0] == "stmt":
-            r = render(v.rvalue_expr(x[3]))
-            ok = r == "0"
+    for s, e in cv.returns():
+        if e[0] == "const":
+            ok = e[1] == 0
             n_false += ok
-            ctx.ob("verify", "true only from PublicKey::verify", ok, site.loc(), "return value assigned %s" % r[:80])
+            ctx.ob("verify", "true only from PublicKey::verify", ok, s.loc(), "return value assigned %s" % render(e)[:80])
         else:
-            ok = re.search(r"PublicKey::verify$", mir.strip_generics(v.call_name(x[3]))) is not None
-            ctx.ob("verify", "true only from PublicKey::verify", ok, site.loc(), "return value = %s" % mir.strip_generics(v.call_name(x[3])))
+            ok = e[0] == "call" and re.search(r"PublicKey::verify$", strip_generics(e[1])) is not None
+            ctx.ob("verify", "true only from PublicKey::verify", ok, s.loc(), "return value = %s" % render(e)[:100])
     ctx.ob("verify", "floor:failure returns", n_false >= 1, nontrivial=False, msg="%d `return false`" % n_false)
-    FROM = r"std::option::Option::as_ref\(message\.from\)"
-    SRC = r"libp2p_identity::PeerId::from_bytes\((<std::vec::Vec as std::ops::Deref>::deref\()?%s@Some\.0\)?\)" % FROM
+    SRC = r"libp2p_identity::PeerId::from_bytes\(\$1\.from@Some\.0\)"
     for s in ver:
-        ctx.guarded("verify", "verify only if a source is given", s, lambda c, r, l: l == "Some" and re.match(r"^discr\(%s\)$" % FROM, r) is not None, "message.from is Some")
-        ctx.guarded("verify", "verify only if the source is a valid PeerId", s, lambda c, r, l: l == "Ok" and re.match(r"^discr\(%s\)$" % SRC, r) is not None, "PeerId::from_bytes(from) is Ok")
-        ctx.guarded("verify", "verify only if a signature is given", s, lambda c, r, l: l == "Some" and r == "discr(std::option::Option::as_ref(message.signature))", "message.signature is Some")
-        ctx.guarded("verify", "verify only if source == public_key.to_peer_id()", s,
-                    lambda c, r, l: (l == "false" and re.match(r"^std::cmp::PartialEq::ne\(%s@Ok\.0, libp2p_identity::PublicKey::to_peer_id\(public_key\)\)$" % SRC, r) is not None) or
-                                    (l == "true" and re.match(r"^std::cmp::PartialEq::eq\(%s@Ok\.0, libp2p_identity::PublicKey::to_peer_id\(public_key\)\)$" % SRC, r) is not None),
-                    "source == public_key.to_peer_id()")
-        e = v.site_expr(s)
-        a = [render(x) for x in e[2]]
-        ctx.ob("verify", "the key that is checked against the source is the key that verifies", a[0] == "public_key", s.loc(), a[0][:80])
-        ctx.ob("verify", "verified bytes are signature_bytes", re.match(r"^(<std::vec::Vec as std::ops::Deref>::deref\()?signature_bytes\)?$", a[1]) is not None, s.loc(), a[1][:80])
-        ctx.ob("verify", "verified signature is message.signature", re.match(r"^(<std::vec::Vec as std::ops::Deref>::deref\()?std::option::Option::as_ref\(message\.signature\)@Some\.0\)?$", a[2]) is not None, s.loc(), a[2][:120])
-    # signature_bytes = SIGNING_PREFIX ++ encode(message_sig), message_sig = message.clone() with signature/key = None
-    sb = [k for k, n in v.names.items() if n == "signature_bytes"]
-    init = [render(v.init_expr(k)) for k in sb]
-    ctx.ob("verify", "signature_bytes starts with SIGNING_PREFIX", init == ["std::slice::to_vec(const:libp2p_gossipsub::protocol::SIGNING_PREFIX)"], vw, str(init))
-    ext = [s for s in v.call_sites(r"Vec::extend_from_slice$|Vec as std::iter::Extend>::extend$") if render(v.site_expr(s)[2][0]) == "signature_bytes"]
-    ctx.floor("verify", "signature_bytes.extend", ext, 1, exact=True)
-    allmut = [s for s in v.call_sites() if s.term["args"] and render(v.site_expr(s)[2][0]) == "signature_bytes" and not re.search(r"Deref>::deref$", mir.strip_generics(v.call_name(s.term)))]
-    ctx.ob("verify", "signature_bytes is only extended once", len(allmut) == len(ext) == 1, vw, str([mir.strip_generics(v.call_name(s.term)) for s in allmut]))
-    enc = v.call_sites(r"prost::Message::encode_to_vec$|Message>::encode_to_vec$")
-    ctx.floor("verify", "encode_to_vec", enc, 1, exact=True)
-    for s in ext:
-        r = render(v.site_expr(s)[2][1])
-        ctx.ob("verify", "appended bytes are the encoded cleared message", re.match(r"^(<std::vec::Vec as std::ops::Deref>::deref\()?prost::Message::encode_to_vec\(message_sig\)\)?$", r) is not None, s.loc(), r[:120])
-        if ver:
-            lib.precedes(ctx, "verify", "prefix+message assembled before verification", v, [s.bb], lib.bbs(ver), "extend_from_slice precedes PublicKey::verify", s.loc())
-    ms = [k for k, n in v.names.items() if n == "message_sig"]
-    init = [render(v.init_expr(k)) for k in ms]
-    ctx.ob("verify", "message_sig is a clone of the received message", len(init) == 1 and re.match(r"^libp2p_gossipsub::<rpc_proto::proto::gossipsub_pb::Message as std::clone::Clone>::clone\(message\)$", init[0]) is not None, vw, str(init)[:160])
-    cleared = {}
-    for l in ms:
-        for x in v.defs.get((l, "partial"), []):
-            if x[0] != "stmt":
+        a = cv.args(s)
+        key = render(a[0])
+        ctx.ob("verify", "verify only if a source is given", cv.dominated(s.bb, cv.edges(lib_gs2.var_pred(r"^\$1\.from$", {"Some"}))), s.loc(), "message.from is Some")
+        ctx.ob("verify", "verify only if the source is a valid PeerId", cv.dominated(s.bb, cv.edges(lib_gs2.var_pred("^%s$" % SRC, {"Ok"}))), s.loc(), "PeerId::from_bytes(from) is Ok")
+        ctx.ob("verify", "verify only if a signature is given", cv.dominated(s.bb, cv.edges(lib_gs2.var_pred(r"^\$1\.signature$", {"Some"}))), s.loc(), "message.signature is Some")
+        ctx.ob("verify", "verify only if source == key.to_peer_id()", cv.dominated(s.bb, cv.edges(lib_gs2.rel_pred("^%s@Ok\\.0$" % SRC, r"^libp2p_identity::PublicKey::to_peer_id\(%s\)$" % re.escape(key), "Eq"))), s.loc(),
+               "source == to_peer_id(key) for the key passed to verify (%s)" % key)
+        ctx.ob("verify", "verified signature is message.signature", render(a[2]) == "$1.signature@Some.0", s.loc(), render(a[2])[:120])
+        # the verified bytes
+        sbl = a[1][1] if a[1][0] == "local" else None
+        ctx.ob("verify", "floor:verified bytes are a local buffer", sbl is not None, s.loc(), render(a[1])[:80], nontrivial=False)
+        if sbl is None:
+            continue
+        init = cv.init(sbl)
+        pre = [x for x in mir.walk(init)] if init else []
+        cpath = [x[1] for x in pre if x[0] == "namedconst"]
+        okp = init is not None and init[0] == "call" and re.search(r"slice::to_vec$|Vec::from$|borrow::ToOwned", strip_generics(init[1])) is not None and len(cpath) == 1
+        ctx.ob("verify", "signature_bytes starts with SIGNING_PREFIX", okp, vw, render(init)[:120] if init else "no single initialiser")
+        muts = [m for m in v.call_sites() if m.term["args"] and render(cv.args(m)[0]) == render(a[1]) and m != s and not lib_gs2.TRANSPARENT.search(strip_generics(v.call_name(m.term)))]
+        ctx.ob("verify", "signature_bytes is only extended once", len(muts) == 1 and re.search(r"extend_from_slice$|Extend>::extend$|append$", strip_generics(v.call_name(muts[0].term))) is not None, vw, str([strip_generics(v.call_name(m.term)) for m in muts]))
+        for m in muts[:1]:
+            app = cv.args(m)[1]
+            okm = app[0] == "call" and re.search(r"encode_to_vec$", strip_generics(app[1])) is not None and app[2] and app[2][0][0] == "local"
+            ctx.ob("verify", "appended bytes are the encoded cleared message", okm, m.loc(), render(app)[:120])
+            lib.precedes(ctx, "verify", "prefix+message assembled before verification", v, [m.bb], [s.bb], "extend precedes PublicKey::verify", m.loc())
+            if not okm:
                 continue
-            prs = x[4].get("pr", ())
-            fld = [pr["n"] for pr in prs if pr["k"] == "field"]
-            cleared.setdefault(fld[-1] if fld else "?", []).append((mir.Site(v, x[1], x[2]), render(v.rvalue_expr(x[3]))))
-    ok_fields = True
-    for f in ("signature", "key"):
-        ws = cleared.get(f, [])
-        ok = bool(ws) and all(r == "std::option::Option::None{}" for _, r in ws) and bool(enc) and \
-            enc[0].bb not in v.reachable([0], blocked_nodes=lib.bbs([w for w, _ in ws]))
-        ok_fields &= ok
-        ctx.ob("verify", "signature and key are cleared before encoding", ok, ws[0][0].loc() if ws else vw, "message_sig.%s = None on every path to encode_to_vec: %s" % (f, ok))
-    other = sorted(set(cleared) - {"signature", "key"})
-    ctx.ob("verify", "no signed field is altered before encoding", not other, vw, "other fields of message_sig written: %s" % other)
-    # key selection
-    pk = [k for k, n in v.names.items() if n == "public_key"]
-    pdefs = []
-    for l in pk:
-        for x in v.defs.get(l, []):
-            pdefs.append(render(v.rvalue_expr(x[3])) if x[0] == "stmt" else render(v.call_expr(x[3], x[1])))
-    want_key = r"^std::option::Option::map\(std::option::Option::as_deref\(message\.key\), fn:libp2p_identity::PublicKey::try_decode_protobuf\)@Some\.0@Ok\.0$"
-    want_inl = r"^libp2p_identity::PublicKey::try_decode_protobuf\(<std::vec::Vec as std::ops::Index>::index\(libp2p_identity::PeerId::to_bytes\(%s@Ok\.0\), std::ops::RangeFrom::RangeFrom\{start: 2\}\)\)@Ok\.0$" % SRC
-    ctx.ob("verify", "key is message.key if it decodes, else the key inlined in the source id",
-           len(pdefs) == 2 and any(re.match(want_key, x) for x in pdefs) and any(re.match(want_inl, x) for x in pdefs), vw, str(pdefs)[:400])
+            ml = app[2][0][1]
+            enc_bb = app[3]
+            mi = cv.init(ml)
+            ctx.ob("verify", "the encoded message is a copy of the received message", mi is not None and render(mi) == "$1", vw, render(mi)[:100] if mi else "")
+            cleared = {}
+            for x in v.defs.get((ml, "partial"), []):
+                if x[0] != "stmt":
+                    continue
+                fld = [pr["n"] for pr in x[4].get("pr", ()) if pr["k"] == "field"]
+                cleared.setdefault(fld[-1] if fld else "?", []).append((mir.Site(v, x[1], x[2]), cv.r(v.rvalue_expr(x[3]))))
+            for f in ("signature", "key"):
+                ws = cleared.get(f, [])
+                ok = bool(ws) and all(r == "std::option::Option::None{}" for _, r in ws) and enc_bb not in v.reachable([0], blocked_nodes=lib.bbs([w for w, _ in ws]))
+                ctx.ob("verify", "signature and key are cleared before encoding", ok, ws[0][0].loc() if ws else vw, "copy.%s = None on every path to encode_to_vec: %s" % (f, ok))
+            other = sorted(set(cleared) - {"signature", "key"})
+            ctx.ob("verify", "no signed field is altered before encoding", not other, vw, "other fields of the copy written: %s" % other)
+        # key selection
+        if a[0][0] == "local":
+            kd = [r for _, r in cv.defs(a[0][1])]
+            from_key = [x for x in kd if "try_decode_protobuf" in x and "$1.key" in x and x.endswith("@Ok.0")]
+            from_src = [x for x in kd if re.search(r"try_decode_protobuf\(.*libp2p_identity::PeerId::to_bytes\(%s@Ok\.0\).*\)@Ok\.0$" % SRC, x) and "$1.key" not in x]
+            ctx.ob("verify", "key is message.key if it decodes, else the key inlined in the source id",
+                   len(kd) >= 1 and len(from_key) + len(from_src) == len(kd) and len(from_src) >= 1, vw, str(kd)[:400])
+    vconst = set()
+    for s in ver:
+        a = cv.args(s)
+        if a[1][0] == "local" and cv.init(a[1][1]):
+            vconst |= {x[1] for x in mir.walk(cv.init(a[1][1])) if x[0] == "namedconst"}
     # ---- decode calls verify_signature on the loop's message
     vs_calls = d.call_sites(r"protocol::GossipsubCodec::verify_signature$")
     ctx.floor("verify", "verify_signature call in decode", vs_calls, 1, exact=True)
     for s in vs_calls:
-        r = render(d.site_expr(s)[2][0])
-        ctx.ob("verify", "the message verified is the message pushed", re.match("^%s$" % M, r) is not None, s.loc(), r[:120])
+        r = render(cx.args(s)[0])
+        ctx.ob("verify", "the message verified is the message pushed", re.match("^%s$" % E, r) is not None, s.loc(), r[:120])
     callers = prog.callers(G, r"protocol::GossipsubCodec::verify_signature$")
     ctx.ob("verify", "verify_signature is only consulted by decode", {s.body.npath for s in callers} == {d.npath}, vw, str(sorted({s.body.npath for s in callers})))
     # ---- K11: the signing side signs the same byte string
     b = ctx.body(G, r"behaviour::Behaviour::build_raw_message$")
+    cb = Canon(prog, b)
+    bw = "%s:%d" % (b.file, b.line)
     sg = b.call_sites(r"libp2p_identity::Keypair::sign$")
     ctx.floor("sign", "Keypair::sign call", sg, 1, exact=True)
-    sbl = [k for k, n in b.names.items() if n == "signature_bytes"]
-    init = [render(b.init_expr(k)) for k in sbl]
-    ctx.ob("sign", "signed bytes start with SIGNING_PREFIX", init == ["std::slice::to_vec(const:libp2p_gossipsub::protocol::SIGNING_PREFIX)"], "%s:%d" % (b.file, b.line), str(init))
     mir.RENDER_MAX[0] = 30
     try:
-        bext = [s for s in b.call_sites(r"Vec::extend_from_slice$|Vec as std::iter::Extend>::extend$") if render(b.site_expr(s)[2][0]) == "signature_bytes"]
-        ctx.floor("sign", "signature_bytes.extend", bext, 1, exact=True)
-        for s in bext:
-            e = b.site_expr(s)[2][1]
-            aggs = [x for x in mir.walk(e) if x[0] == "agg" and x[1] == "adt" and re.search(r"gossipsub_pb::Message$", mir.strip_generics(x[2]))]
-            ok = len(aggs) == 1 and "encode_to_vec(" in render(e)
-            ctx.ob("sign", "appended bytes are an encoded proto::Message", ok, s.loc(), render(e)[:100])
-            if aggs:
-                f = dict((k, render(x)) for k, x in aggs[0][4])
-                ctx.ob("sign", "signed message has signature: None and key: None", f.get("signature") == "std::option::Option::None{}" and f.get("key") == "std::option::Option::None{}", s.loc(),
-                       "signature=%s key=%s" % (f.get("signature"), f.get("key")))
-                ctx.ob("sign", "signed `from` is the author", re.match(r"^std::option::Option::Some\{0: libp2p_identity::PeerId::to_bytes\(self\.publish_config@Signing\.author\)\}$", f.get("from", "")) is not None, s.loc(), f.get("from", "")[:120])
-                ctx.ob("sign", "signed seqno is the big-endian sequence number", re.match(r"^std::option::Option::Some\{0: std::slice::to_vec\(core::num::to_be_bytes\(libp2p_gossipsub::behaviour::SequenceNumber::next\(self\.publish_config@Signing\.last_seq_no\)\)\)\}$", f.get("seqno", "")) is not None, s.loc(), f.get("seqno", "")[:160])
-                ctx.ob("sign", "signed data / topic are the published data / topic", "clone(data)" in f.get("data", "") and "clone(topic)" in f.get("topic", ""), s.loc(), "data=%s topic=%s" % (f.get("data", "")[:60], f.get("topic", "")[:80]))
-            if sg:
-                lib.precedes(ctx, "sign", "prefix+message assembled before signing", b, [s.bb], lib.bbs(sg), "extend_from_slice precedes Keypair::sign", s.loc())
+        sconst = set()
+        signed = {}
         for s in sg:
-            a = [render(x) for x in b.site_expr(s)[2]]
-            ctx.ob("sign", "signs signature_bytes with the configured keypair", a[0] == "self.publish_config@Signing.keypair" and re.match(r"^(<std::vec::Vec as std::ops::Deref>::deref\()?signature_bytes\)?$", a[1]) is not None, s.loc(), str(a)[:160])
+            a = cb.args(s)
+            KP = r"^\$1\.\w+@Signing\.\w+$"
+            ctx.ob("sign", "signs with the configured keypair", re.match(KP, render(a[0])) is not None, s.loc(), render(a[0])[:100])
+            sl = a[1][1] if a[1][0] == "local" else None
+            ctx.ob("sign", "floor:signed bytes are a local buffer", sl is not None, s.loc(), render(a[1])[:80], nontrivial=False)
+            if sl is None:
+                continue
+            init = cb.init(sl)
+            sconst |= {x[1] for x in mir.walk(init) if x[0] == "namedconst"} if init else set()
+            muts = [m for m in b.call_sites() if m.term["args"] and render(cb.args(m)[0]) == render(a[1]) and m != s and not lib_gs2.TRANSPARENT.search(strip_generics(b.call_name(m.term)))]
+            ctx.ob("sign", "signed bytes = prefix extended exactly once", init is not None and len(muts) == 1 and re.search(r"extend_from_slice$|Extend>::extend$|append$", strip_generics(b.call_name(muts[0].term))) is not None, bw,
+                   "init %s; mutators %s" % (render(init)[:80] if init else None, [strip_generics(b.call_name(m.term)) for m in muts]))
+            for m in muts[:1]:
+                app = cb.args(m)[1]
+                aggs = [x for x in mir.walk(app) if x[0] == "agg" and x[1] == "adt" and re.search(r"gossipsub_pb::Message$", strip_generics(x[2]))]
+                ok = len(aggs) == 1 and app[0] == "call" and re.search(r"encode_to_vec$", strip_generics(app[1])) is not None
+                ctx.ob("sign", "appended bytes are an encoded proto::Message", ok, m.loc(), render(app)[:100])
+                lib.precedes(ctx, "sign", "prefix+message assembled before signing", b, [m.bb], [s.bb], "extend precedes Keypair::sign", m.loc())
+                if aggs:
+                    f = dict((k, render(x)) for k, x in aggs[0][4])
+                    ctx.ob("sign", "signed message has signature: None and key: None", f.get("signature") == "std::option::Option::None{}" and f.get("key") == "std::option::Option::None{}", m.loc(),
+                           "signature=%s key=%s" % (f.get("signature"), f.get("key")))
+                    mfrom = re.match(r"^std::option::Option::Some\{0: libp2p_identity::PeerId::to_bytes\((.*)\)\}$", f.get("from", ""))
+                    mseq = re.match(r"^std::option::Option::Some\{0: std::slice::to_vec\(core::num::to_be_bytes\((.*)\)\)\}$", f.get("seqno", ""))
+                    signed["from"] = mfrom.group(1) if mfrom else None
+                    signed["seq"] = mseq.group(1) if mseq else None
+                    ctx.ob("sign", "signed `from` is a peer id, signed seqno a big-endian number", mfrom is not None and mseq is not None, m.loc(), "from=%s seqno=%s" % (f.get("from", "")[:80], f.get("seqno", "")[:100]))
+                    ctx.ob("sign", "signed data / topic are the published data / topic", f.get("data") == "std::option::Option::Some{0: $3}" and re.match(r"^libp2p_gossipsub::topic::TopicHash::into_string\(\$2\)$", f.get("topic", "")) is not None, m.loc(), "data=%s topic=%s" % (f.get("data", "")[:60], f.get("topic", "")[:80]))
         # the RawMessage published on the Signing arm carries what was signed
-        oks = [mir.Site(b, x[1], x[2]) for x in b.defs[0] if x[0] == "stmt"]
-        signing = [s for s in oks if "Keypair::sign(" in render(b.site_expr(s))]
+        signing = [(s, e) for s, e in cb.returns() if "Keypair::sign(" in render(e) and any(x[0] == "agg" and x[1] == "adt" and re.search(r"types::RawMessage$", strip_generics(x[2])) for x in mir.walk(e))]
         ctx.floor("sign", "signed RawMessage", signing, 1, exact=True)
-        for s in signing:
-            e = b.site_expr(s)
-            aggs = [x for x in mir.walk(e) if x[0] == "agg" and x[1] == "adt" and re.search(r"types::RawMessage$", mir.strip_generics(x[2]))]
+        for s, e in signing:
+            aggs = [x for x in mir.walk(e) if x[0] == "agg" and x[1] == "adt" and re.search(r"types::RawMessage$", strip_generics(x[2]))]
             f = dict((k, render(x)) for k, x in aggs[0][4]) if aggs else {}
             ctx.ob("sign", "published source / sequence_number are the signed ones",
-                   f.get("source") == "std::option::Option::Some{0: self.publish_config@Signing.author}" and
-                   f.get("sequence_number") == "std::option::Option::Some{0: libp2p_gossipsub::behaviour::SequenceNumber::next(self.publish_config@Signing.last_seq_no)}" and
-                   f.get("data") == "data" and f.get("topic") == "topic", s.loc(), str({k: f.get(k, "")[:70] for k in ("source", "sequence_number", "data", "topic")}))
-            ctx.ob("sign", "published signature is the signature just made", re.match(r"^std::option::Option::Some\{0: <std::result::Result as std::ops::Try>::branch\(libp2p_identity::Keypair::sign\(", f.get("signature", "")) is not None, s.loc(), f.get("signature", "")[:100])
+                   signed.get("from") is not None and f.get("source") == "std::option::Option::Some{0: %s}" % signed["from"] and
+                   signed.get("seq") is not None and f.get("sequence_number") == "std::option::Option::Some{0: %s}" % signed["seq"] and
+                   f.get("data") == "$3" and f.get("topic") == "$2", s.loc(), str({k: f.get(k, "")[:70] for k in ("source", "sequence_number", "data", "topic")}))
+            ctx.ob("sign", "published signature is the signature just made", re.match(r"^std::option::Option::Some\{0: libp2p_identity::Keypair::sign\(.*\)@Ok\.0\}$", f.get("signature", "")) is not None, s.loc(), f.get("signature", "")[:100])
         nseq = b.call_sites(r"behaviour::SequenceNumber::next$")
-        ctx.ob("sign", "one sequence number per message (signed == published)", len(nseq) == 1, "%s:%d" % (b.file, b.line), "%d SequenceNumber::next calls" % len(nseq))
+        ctx.ob("sign", "one sequence number per message (signed == published)", len(nseq) == 1, bw, "%d SequenceNumber::next calls" % len(nseq))
     finally:
         mir.RENDER_MAX[0] = 14
-    pre = prog.const(G, r"protocol::SIGNING_PREFIX$")
-    ctx.ob("sign", "SIGNING_PREFIX == b\"libp2p-pubsub:\"", pre.get("s") == "libp2p-pubsub:" or pre.get("v") == "libp2p-pubsub:" or "libp2p-pubsub:" in str(pre), msg=str(pre)[:160])
-
-
-def _passes_take(d, b, start):
-    """Does every path start -> b pass the `invalid_kind.take()` test?  (pushes before the test are unaffected by it)"""
-    take = [bi for bi in d.live if d.switch_info(bi) and render(d.switch_info(bi)[0]) == "discr(std::option::Option::take(invalid_kind))"]
-    if not take:
-        return False
-    return b not in d.reachable([start], blocked_nodes=take)
+    ctx.ob("sign", "sign and verify use the same prefix constant", len(vconst) == 1 and vconst == sconst, msg="verify: %s sign: %s" % (sorted(vconst), sorted(sconst)))
+    for p in sorted(vconst):
+        pre = prog.const(G, "^" + re.escape(p) + "$")
+        ctx.ob("sign", "the signing prefix is b\"libp2p-pubsub:\"", pre.get("s") == "libp2p-pubsub:", msg=str(pre)[:160])
